@@ -2,9 +2,12 @@
 import hashlib
 import json
 
+import choicelib
 import common
 import gen
 import progcases
+
+TWINS = ['salt']      # harness/twins.py: which part of a twin text carries the difference
 
 N = {"quick": 4000, "thorough": 100000}
 
@@ -79,6 +82,7 @@ def run(ctx):
                          "against an independent implementation of the published sentence (hashlib + sorted + str + exact rationals)")
     run_positions(ctx, n)
     run_evaluators(ctx, max(40, n // 40))
+    choicelib.run_half_step(ctx, 40)
 
 
 def search(ctx):
